@@ -109,6 +109,7 @@ class World:
         self.sent_chunks = []           # (part, requested, data) for the chunk-discipline oracle
         self.tag = None                 # request tag (C12)
         self.hb_ud = None
+        self.sim_errors = []
         self.extra_handlers = {}        # cmd -> fn(world, data, apdu) for admin-only commands
         self.__dict__.update(kw)
 
@@ -146,6 +147,13 @@ class Dongle:
             raise CommException("Invalid status %04x" % f, f)
         try:
             r = handle(w, apdu)
+        except (IndexError, KeyError, TypeError, ValueError, AttributeError, struct.error,
+                AssertionError) as e:
+            # a bug of the simulated device, not of the code under test; hsm2dongle.py would
+            # swallow it (it catches BaseException), so it is recorded for the check to see
+            import traceback
+            w.sim_errors.append(traceback.format_exc()[-1500:])
+            raise
         except SW as e:
             reset_sessions(w)
             if f in ("read", "timeout"):
